@@ -54,7 +54,7 @@ class Gen:
             if r.random() < 0.3:
                 e["fdim"] = e["fock"] + r.choice([1, 2, 3] if nenv < 3 else [1, 2])
             envs.append(e)
-        customs = [{"dim": r.choice([2, 3, 3, 4] if nenv < 3 else [2, 3]), "label": 0} for _ in range(ncs)]
+        customs = [{"dim": r.choice([1, 2, 2, 3, 3, 3, 4, 5] if nenv < 3 else [1, 2, 3]), "label": 0} for _ in range(ncs)]
         for c in customs:
             c["label"] = r.randrange(c["dim"])
         refs = [f"e{i}" for i in range(nenv)] + [f"c{i}" for i in range(ncs)]
@@ -530,7 +530,7 @@ class Gen:
 
     def invalid(self, w):
         r = self.rng
-        what = r.choice(["kraus_not_tp", "kraus_imag_defect", "kraus_offdiag_defect", "kraus_wrong_size", "povm_wrong_size", "foreign_member", "foreign_member", "wrong_kind", "custom_wrong_size", "shrink_below_support", "annihilate_vacuum", "destroyed"])
+        what = r.choice(["kraus_not_tp", "kraus_imag_defect", "kraus_offdiag_defect", "kraus_wrong_size", "povm_wrong_size", "foreign_member", "foreign_member", "destroyed_operand", "wrong_kind", "custom_wrong_size", "shrink_below_support", "annihilate_vacuum", "destroyed"])
         cands = self.live(w)
         if not cands:
             return None
@@ -563,6 +563,18 @@ class Gen:
             else:
                 ops = [K]
             st["ops"] = [mj(x) for x in ops]
+        elif what == "destroyed_operand":
+            dead = [x for x in w.subs if getattr(x, "measured", False) and isinstance(x, Polarization)]
+            if not dead or not w.handles:
+                return None
+            dd = r.choice(dead)
+            hs = [k for k, h_ in enumerate(w.handles) if has(h_.state_objs, dd) or True]
+            hi = r.choice(hs)
+            live = [x for x in w.handles[hi].state_objs if not getattr(x, "measured", False) and isinstance(x, Polarization)]
+            if not live:
+                return None
+            lv = self.pick(live)
+            return {"kind": "invalid", "what": "destroyed_operand", "h": hi, "targets": [w.sid(lv), w.sid(dd)], "call": r.choice(["combine", "kraus", "trace_out", "cx"])}
         elif what == "foreign_member":
             # a request through an envelope / composite envelope that names a subsystem which is not one of
             # its members -- preferably one that holds the same value as a member (value equality must not help)
@@ -727,7 +739,7 @@ class Gen:
                         out.append({"kind": "op", "targets": [t], "entry": "state", "gate": "Creation"}) if r.random() < 0.5 else None
                 out.append({"kind": "op", "gate": "ExprFock", "targets": [a, b2], "entry": "ce", "h": 0, "params": {"chi": chi}, "reuse": True})
                 out.append({"kind": "op", "gate": "ExprFock", "targets": [b2, a], "entry": "ce", "h": 0, "params": {"chi": chi}, "reuse": True})
-        elif f == "C08" and r.random() < 0.35:
+        elif f in ("C08", "C02") and r.random() < (0.35 if f == "C08" else 0.2):
             # nearly pure state: a weak channel (mixing probability 2e-6 .. 5e-5) on a subsystem in
             # superposition, own / combined-envelope / product-space storage, followed by a few
             # purity-preserving steps; automatic contraction must leave it alone (or contract it exactly)
